@@ -295,6 +295,33 @@ theorem update_pre_last (u : UC) (k : Name) (pre : List ClassB) (cls : ClassB) (
     have := hpre c hc; simp only [sameKind] at this; simp [this]
   · simp [hk]
 
+theorem tyOfName_nil (u : UC) : tyOfName u [] = none := by
+  simp [tyOfName, UC.upper, Gen.Persist.Ty.all, Gen.Persist.Ty.chars]
+
+/-- if every inferred attribute has a known type, `guess_type_name` knew a type for every value -/
+theorem guessAll_of_inferred (u : UC) : ∀ (names : List Name) (values : List Text), names.length = values.length →
+    (∀ a ∈ inferredAttrs u names values, (tyOfName u a.2).isSome = true) →
+    values.all (fun v => (guessType u v).isSome) = true := by
+  intro names
+  induction names with
+  | nil => intro values h _; cases values with
+    | nil => rfl
+    | cons _ _ => simp at h
+  | cons n ns ih =>
+    intro values h hall
+    cases values with
+    | nil => simp at h
+    | cons v vs =>
+      have htail := ih vs (by simpa using h) (fun a ha => hall a (by
+        simp only [inferredAttrs, List.zip_cons_cons, List.map_cons, List.mem_cons]; right
+        simpa [inferredAttrs] using ha))
+      have hhead := hall (n, match guessType u v with | some t => t.chars | none => []) (by
+        simp only [inferredAttrs, List.zip_cons_cons, List.map_cons, List.mem_cons]; left; trivial)
+      simp only [List.all_cons, htail, Bool.and_true]
+      cases hg : guessType u v with
+      | some t => rfl
+      | none => rw [hg] at hhead; simp [tyOfName_nil] at hhead
+
 /-- one more positional row for the class that stands last in the state -/
 theorem popInstance_last (u : UC) (k : Name) (attrs' : List (Name × Name)) (pre : List ClassB) (R : List (List Cell))
     (as : List AssocB) (t : List Text) (hpre : ∀ c ∈ pre, sameKind u c.kind k = false)
@@ -308,7 +335,8 @@ theorem popInstance_last (u : UC) (k : Name) (attrs' : List (Name × Name)) (pre
   have hc := positionalCells_ok u ⟨k, attrs', [], [], R⟩ attrs' t hcells
   have hcong : specCells u ⟨k, attrs', [], [], R⟩ attrs' t = specCells u ⟨k, attrs', [], [], []⟩ attrs' t := by
     apply specCells_congr; rfl
-  simp only [popInstance, isNamed, Bool.false_and, Bool.false_eq_true, if_false, inferOk_positional, ensureClass, hf, hnew,
+  have hgs : guessOk u ⟨pre ++ [⟨k, attrs', [], [], R⟩], as⟩ k t = true := by simp [guessOk, hf]
+  simp only [popInstance, isNamed, Bool.false_and, Bool.false_eq_true, if_false, inferOk_positional, hgs, ensureClass, hf, hnew,
     Bool.not_true, cellsOf, hc, hcong]
   rw [update_pre_last u k pre _ as _ hpre rfl]
 
@@ -342,7 +370,12 @@ theorem popInstances_block (u : UC) (k : Name) (t1 : List Text) (ts : List (List
   have hfirst : popInstance u ⟨pre, as⟩ k t1 none =
       popInstance u ⟨pre ++ [⟨k, inferredAttrs u (positionalNames t1.length) t1, [], [], []⟩], as⟩ k t1 none := by
     have hf := find?_pre_last u k pre ⟨k, inferredAttrs u (positionalNames t1.length) t1, [], [], []⟩ as hpre rfl
-    simp only [popInstance, isNamed, Bool.false_and, Bool.false_eq_true, if_false, inferOk_positional, Bool.not_true,
+    have hg1 : guessOk u ⟨pre, as⟩ k t1 = true := by
+      simp only [guessOk, hnone]
+      exact guessAll_of_inferred u (positionalNames t1.length) t1 (by simp [positionalNames]) hrow
+    have hg2 : guessOk u ⟨pre ++ [⟨k, inferredAttrs u (positionalNames t1.length) t1, [], [], []⟩], as⟩ k t1 = true := by
+      simp [guessOk, hf]
+    simp only [popInstance, isNamed, Bool.false_and, Bool.false_eq_true, if_false, inferOk_positional, Bool.not_true, hg1, hg2,
       ensureClass, inferredFor, hnone, hf]
   simp only [List.map_cons, List.cons_append, popInstances, hfirst,
     popInstance_last u k _ pre [] as t1 hpre hrow (hcells t1 (by simp))]
@@ -488,7 +521,7 @@ theorem popInstances_classes (u : UC) : ∀ (L : List ClassM) (pre : List ClassB
 /-! ### the whole build on INSERT statements alone -/
 
 def IsInsert : Stmt → Prop
-  | .insert _ _ _ => True
+  | .insert _ _ none => True
   | _ => False
 
 theorem popClasses_inserts (u : UC) : ∀ (stmts : List Stmt) (s : BState), (∀ st ∈ stmts, IsInsert st) → popClasses u stmts s = .ok s := by
@@ -532,7 +565,20 @@ theorem popAssocs_inserts (u : UC) : ∀ (stmts : List Stmt) (s : BState), (∀ 
 
 theorem build_inserts (u : UC) (stmts : List Stmt) (h : ∀ st ∈ stmts, IsInsert st) :
     build u stmts = popInstances u stmts BState.empty := by
-  unfold build
+  have hp : touchesInternals stmts = false := by
+    unfold touchesInternals
+    rw [List.any_eq_false]
+    intro st hst
+    have := h st hst
+    cases st with
+    | insert k v n => cases n with
+      | none => simp [Stmt.pyNames]
+      | some _ => simp [IsInsert] at this
+    | createTable _ _ => simp [IsInsert] at this
+    | createRop _ _ _ _ _ _ _ _ _ => simp [IsInsert] at this
+    | createIndex _ _ _ => simp [IsInsert] at this
+  rw [build_eq_core u stmts hp]
+  unfold buildCore
   simp only [popClasses_inserts u stmts _ h, popIdents_inserts u stmts _ h, popAssocs_inserts u stmts _ h]
 
 theorem instances_stmts_are_inserts (u : UC) (m : MM) (stmts : List Stmt) (hs : itemsStmts u m.serializeInstances = some stmts) :
@@ -668,13 +714,19 @@ theorem inferAttrs_core (u : UC) (attrs : List (Name × Name)) (h : ∀ a ∈ at
   | none => rw [ht] at hs; simp at hs
   | some t => simp only [(guessedName_core u a0.2 t ht).2, Option.isSome_some]
 
+theorem isDunder_positional (i : Nat) : isDunder ('_' :: natText i) = false := by
+  obtain ⟨d, ds, h⟩ := natText_cons i
+  have hd : d ≠ '_' := ne_of_isAsciiDigit (natText_all_digit i d (by rw [h]; simp)) (by decide)
+  rw [h]
+  simp [isDunder, hd]
+
 /-- the inferred metamodel is closed again -/
 theorem closed_inferred (u : UC) (m : MM) (hm : m.Closed u) : (m.inferred u).Closed u := by
   have hmem : ∀ c' ∈ (m.inferred u).classes, ∃ c ∈ m.classes, c' = inferClass u c := by
     intro c' hc'
     simp only [MM.inferred, List.mem_map, List.mem_filter] at hc'
     obtain ⟨c, ⟨hc, _⟩, rfl⟩ := hc'; exact ⟨c, hc, rfl⟩
-  refine ⟨?_, ?_, ?_, ?_, ?_, ?_⟩
+  refine ⟨?_, ?_, ?_, ?_, ?_, ?_, ?_, ?_⟩
   · simp only [MM.inferred, List.map_map]
     have : (m.classes.filter fun c => !c.rows.isEmpty).map ((fun c => u.upper c.kind) ∘ inferClass u) =
         (m.classes.filter fun c => !c.rows.isEmpty).map (fun c => u.upper c.kind) := rfl
@@ -707,6 +759,17 @@ theorem closed_inferred (u : UC) (m : MM) (hm : m.Closed u) : (m.inferred u).Clo
       rw [h2]
     rw [this]
     exact positionalNames_upper_nodup u c.attrs.length
+  · intro c' hc' a ha
+    obtain ⟨c, _, rfl⟩ := hmem c' hc'
+    have : a.1 ∈ positionalNames c.attrs.length := by
+      have h2 : (inferAttrs u c.attrs).map (fun a => a.1) = positionalNames c.attrs.length := by
+        unfold inferAttrs
+        exact List.map_fst_zip (by simp [positionalNames])
+      rw [← h2]; exact List.mem_map.mpr ⟨a, ha, rfl⟩
+    simp only [positionalNames, List.mem_map] at this
+    obtain ⟨i, _, hi⟩ := this
+    rw [← hi]; exact isDunder_positional i
+  · intro a ha; simp [MM.inferred] at ha
 
 /-- inferring again changes nothing -/
 theorem inferred_idem (u : UC) (m : MM) (hm : m.Closed u) : (m.inferred u).inferred u = m.inferred u := by
